@@ -235,6 +235,7 @@ func jobsFor(prop, tier string) []Job {
 				add("enum", fmt.Sprintf("treebidimap.%s.%s.u%d", kc, vc, n), 8, map[string]string{"c": "treebidimap", "cmp": kc, "vcmp": vc}, map[string]int{"u": n, "vu": pick(3, 4), "maxn": n})
 			}
 		}
+		largeJobs("enum", q, []string{"arraylist", "singlylinkedlist", "doublylinkedlist", "linkedhashset", "linkedhashmap"}, add)
 		// large tree-backed receivers: history families (family.go)
 		for _, c := range []string{"treeset", "treemap", "treebidimap"} {
 			for _, cm := range []string{"nat", "rev"} {
@@ -595,6 +596,12 @@ func largeJobs(check string, q bool, cs []string, add func(kind, id string, w in
 	}
 	for _, c := range cs {
 		p := map[string]int{"n": ln, "deep": 1, "every": 64}
+		if check == "enum" {
+			p["n"], p["every"] = 300, 100 // past 256 elements in the quick tier as well (after seeded change C14-16)
+			if !q {
+				p["n"] = 600
+			}
+		}
 		if (c == "binaryheap" || c == "priorityqueue") && (check == "iter" || check == "rewound") {
 			p["n"] = ln * 13 / 20 // heap iterators cost O(level width) per element: 130 / 195 (a level of 64 and the one after it)
 		}
@@ -639,6 +646,9 @@ func treadmillJobs(cs []string, add func(kind, id string, w int, s map[string]st
 		case "rbt":
 			add("treadmill", "treadmill.rbt", 20, map[string]string{"c": c}, map[string]int{"w": 10})
 			add("treadmill", "treadmill.rbt.rev", 20, map[string]string{"c": c, "cmp": "rev"}, map[string]int{"w": 5})
+		case "treebidimap", "hashbidimap":
+			add("treadmill", "treadmill."+c, 20, map[string]string{"c": c}, map[string]int{"w": 6})
+			add("treadmill", "treadmill."+c+".revalue", 20, map[string]string{"c": c}, map[string]int{"w": 6, "revalue": 1})
 		default:
 			add("treadmill", "treadmill."+c, 20, map[string]string{"c": c}, map[string]int{"w": 6})
 		}
